@@ -415,3 +415,30 @@ Definition command_line (fmt_name : str -> str -> res str) (cw : char -> Z) (fue
            (style : option str) (bib_format : option nat) (min_crossrefs : option Z) : res outcome :=
   make_bibliography fmt_name cw fuel fs (cli_aux_name filename) style bib_format
                     (match min_crossrefs with Some m => m | None => 2%Z end).
+
+(* the options of the command line that reach the BibTeX engine, as optparse hands them on: every option may be
+   given several times, the last occurrence counts; --terse is accepted and ignored *)
+Inductive cli_opt :=
+| OptStyle (s : str)             (* -s STYLE / --style STYLE / --style=STYLE *)
+| OptFormat (f : nat)            (* -f FORMAT / --bibliography-format=FORMAT (the input plug-in it names) *)
+| OptMinCrossrefs (m : Z)        (* --min-crossrefs N / -min-crossrefs=N *)
+| OptTerse.                      (* --terse *)
+Fixpoint cli_style (opts : list cli_opt) : option str :=
+  match opts with
+  | [] => None
+  | o :: r => match cli_style r with Some s => Some s | None => match o with OptStyle s => Some s | _ => None end end
+  end.
+Fixpoint cli_format (opts : list cli_opt) : option nat :=
+  match opts with
+  | [] => None
+  | o :: r => match cli_format r with Some f => Some f | None => match o with OptFormat f => Some f | _ => None end end
+  end.
+Fixpoint cli_min_crossrefs (opts : list cli_opt) : option Z :=
+  match opts with
+  | [] => None
+  | o :: r => match cli_min_crossrefs r with Some m => Some m | None => match o with OptMinCrossrefs m => Some m | _ => None end end
+  end.
+(* pybtex OPTIONS FILE *)
+Definition command_line_argv (fmt_name : str -> str -> res str) (cw : char -> Z) (fuel : nat) (fs : fsys)
+           (opts : list cli_opt) (filename : str) : res outcome :=
+  command_line fmt_name cw fuel fs filename (cli_style opts) (cli_format opts) (cli_min_crossrefs opts).
